@@ -163,8 +163,14 @@ type Cond struct {
 
 // DecodeCond describes the condition of an If.
 func DecodeCond(ds *Describer, ifi *ssa.If) Cond {
-	c := Cond{If: ifi}
-	v := ifi.Cond
+	c := DecodeCondValue(ds, ifi.Cond)
+	c.If = ifi
+	return c
+}
+
+// DecodeCondValue describes a boolean value as a condition ("succ 0" = the value is true).
+func DecodeCondValue(ds *Describer, v ssa.Value) Cond {
+	c := Cond{}
 	for {
 		if u, ok := v.(*ssa.UnOp); ok && u.Op == token.NOT {
 			c.Neg = !c.Neg
@@ -184,6 +190,83 @@ func DecodeCond(ds *Describer, ifi *ssa.If) Cond {
 	}
 	c.B = ds.D(v)
 	return c
+}
+
+// GuardEdges computes, for every If of fn, the successor on which the guard is established (blocks without
+// such an If are absent). Short-circuit conditions lowered to phis (a && b, a || b) are understood: the true
+// edge of `a && b` establishes whatever a or b establishes when true; the false edge of `a || b` establishes
+// whatever a or b establishes when false.
+func GuardEdges(ds *Describer, fn *ssa.Function, guard GuardSpec) map[*ssa.BasicBlock]int {
+	est := map[*ssa.BasicBlock]int{}
+	for _, b := range fn.Blocks {
+		if s := guardSucc(ds, b, guard, 0); s >= 0 {
+			est[b] = s
+		}
+	}
+	return est
+}
+
+func guardSucc(ds *Describer, b *ssa.BasicBlock, guard GuardSpec, depth int) int {
+	if len(b.Instrs) == 0 || depth > 6 {
+		return -1
+	}
+	ifi, ok := b.Instrs[len(b.Instrs)-1].(*ssa.If)
+	if !ok {
+		return -1
+	}
+	if s := guard(DecodeCond(ds, ifi)); s >= 0 {
+		return s
+	}
+	// short-circuit phi
+	v := ifi.Cond
+	neg := false
+	for {
+		if u, ok := v.(*ssa.UnOp); ok && u.Op == token.NOT {
+			neg = !neg
+			v = u.X
+			continue
+		}
+		break
+	}
+	phi, ok := v.(*ssa.Phi)
+	if !ok || (phi.Comment != "&&" && phi.Comment != "||") {
+		return -1
+	}
+	// for && : when phi is true all conjuncts were true; for || : when phi is false all disjuncts were false
+	wantTruth := phi.Comment == "&&"
+	established := false
+	for i, e := range phi.Edges {
+		if c, ok := e.(*ssa.Const); ok && c.Value != nil {
+			continue // the short-circuit constant edge
+		}
+		// the last operand itself
+		if s := guard(DecodeCondValue(ds, e)); s >= 0 {
+			if (s == 0) == wantTruth {
+				established = true
+			}
+		}
+		// earlier operands: walk up through single-predecessor blocks whose If leads here
+		cur := phi.Block().Preds[i]
+		for d := 0; d < 6 && cur != nil && len(cur.Preds) == 1; d++ {
+			p0 := cur.Preds[0]
+			if s := guardSucc(ds, p0, guard, depth+1); s >= 0 && p0.Succs[s] == cur {
+				established = true
+			}
+			cur = p0
+		}
+	}
+	if !established {
+		return -1
+	}
+	// successor of b on which the phi has the wanted truth value
+	truthSucc := 0
+	if !wantTruth {
+		truthSucc = 1
+	}
+	if neg {
+		truthSucc = 1 - truthSucc
+	}
+	return truthSucc
 }
 
 // RelOnEdge returns the relation between X and Y that holds when the given
@@ -253,20 +336,7 @@ type GuardSpec func(c Cond) (establishedSucc int)
 // any edge on which the guard is established.  A nil result means every path to
 // the target establishes the guard.
 func Unguarded(ds *Describer, fn *ssa.Function, from ssa.Instruction, target InstrPred, guard GuardSpec) []ssa.Instruction {
-	est := map[*ssa.BasicBlock]int{}
-	n := 0
-	for _, b := range fn.Blocks {
-		if len(b.Instrs) == 0 {
-			continue
-		}
-		if ifi, ok := b.Instrs[len(b.Instrs)-1].(*ssa.If); ok {
-			s := guard(DecodeCond(ds, ifi))
-			if s >= 0 {
-				est[b] = s
-				n++
-			}
-		}
-	}
+	est := GuardEdges(ds, fn, guard)
 	q := PathQuery{Fn: fn, From: from, Target: target, Edge: func(b *ssa.BasicBlock, succ int) bool {
 		if s, ok := est[b]; ok && s == succ {
 			return false
@@ -278,18 +348,7 @@ func Unguarded(ds *Describer, fn *ssa.Function, from ssa.Instruction, target Ins
 
 // CountGuards returns how many If conditions of fn are instances of the guard.
 func CountGuards(ds *Describer, fn *ssa.Function, guard GuardSpec) int {
-	n := 0
-	for _, b := range fn.Blocks {
-		if len(b.Instrs) == 0 {
-			continue
-		}
-		if ifi, ok := b.Instrs[len(b.Instrs)-1].(*ssa.If); ok {
-			if guard(DecodeCond(ds, ifi)) >= 0 {
-				n++
-			}
-		}
-	}
-	return n
+	return len(GuardEdges(ds, fn, guard))
 }
 
 // Calls lists all call instructions (call, go, defer) of fn whose callee satisfies pred.
@@ -353,8 +412,8 @@ func UnguardedLeaf(ds *Describer, fn *ssa.Function, from ssa.Instruction, lf Lea
 		return Unguarded(ds, fn, from, func(in ssa.Instruction) bool { return in == lf.At }, guard)
 	}
 	// is the edge itself one that establishes the guard?
-	if ifi, ok := lf.At.(*ssa.If); ok {
-		s := guard(DecodeCond(ds, ifi))
+	if _, ok := lf.At.(*ssa.If); ok {
+		s := guardSucc(ds, lf.Pred, guard, 0)
 		if s >= 0 {
 			onlyEst := true
 			for i, succ := range lf.Pred.Succs {
